@@ -23,6 +23,46 @@ def case_key(case):
     return (case['cfg'], case['enc'], case['hex'], repr(case['f']), repr(case.get('pds')), case.get('mti'))
 
 
+ALIASES = {'latin_1': 'iso-8859-1', 'cp500': 'IBM500', 'cp037': 'IBM037', 'ascii': 'US-ASCII', 'cp1140': 'ibm1140',
+           'cp273': 'IBM273', 'cp1252': 'windows-1252', 'cp437': 'IBM437'}
+
+
+def call_style(case):
+    """how this case calls dumps/loads: 0 = options by keyword, 1 = all arguments positionally, 2 = by keyword with
+    the codec named by one of its registered aliases (the codec registry, not the library, resolves names)"""
+    return (len(case['f']) + sum(f[0] for f in case['f']) + len(case.get('pds') or [])) % 3
+
+
+def lib_call(fn, first, case, kw):
+    style = call_style(case)
+    if style == 1:
+        return fn(first, kw['encoding'], kw['iso_config'], kw['hex_bitmap'])
+    if style == 2 and kw['encoding'] in ALIASES:
+        return fn(first, **dict(kw, encoding=ALIASES[kw['encoding']]))
+    return fn(first, **kw)
+
+
+def order_independent(case, msg, data, kw, acc, sigp):
+    """the message is a mapping: the same keys and values inserted in another order (reversed here: MTI last, PDS keys
+    before elements, high elements first) must give the same bytes. -> True if a violation was recorded"""
+    if len(msg) < 3:
+        return False
+    from cardutil import iso8583
+    rev = {k: copy.deepcopy(msg[k]) for k in reversed(list(msg))}
+    try:
+        data2 = iso8583.dumps(rev, **kw)
+    except Exception as ex:
+        acc.viol(sigp + '.insertion_order.exception', case, repr(ex), 'the same bytes as for ascending insertion order',
+                 'the same message with its keys inserted in reverse order')
+        return True
+    if data2 != data:
+        acc.viol(sigp + '.insertion_order', case, 'different bytes (%d vs %d)' % (len(data2), len(data)),
+                 'the same bytes as for ascending insertion order',
+                 'the same message with its keys inserted in reverse order')
+        return True
+    return False
+
+
 def may_refuse(case):
     """a numeral handed over as text with more leading zeros than the element is wide: the number fits, so encoding it
     is fine, and a refusal of the over-long text is fine as well - emitting a shifted message is not"""
@@ -34,15 +74,17 @@ def check_roundtrip(case, acc, sigp='c01'):
     msg, exp, cfg = isogen.build_message(case)
     kw = dict(encoding=lib_enc(case), iso_config=isogen.lib_cfg(case), hex_bitmap=case['hex'])
     try:
-        data = iso8583.dumps(copy.deepcopy(msg), **kw)
+        data = lib_call(iso8583.dumps, copy.deepcopy(msg), case, kw)
     except Exception as ex:
         if may_refuse(case):
             acc.outcome('over-long numeral text refused')
             return
         acc.viol(sigp + '.dumps.exception', case, repr(ex), 'bytes', 'encoding a well-formed message raised')
         return
+    if order_independent(case, msg, data, kw, acc, sigp):
+        return
     try:
-        out = iso8583.loads(data, **kw)
+        out = lib_call(iso8583.loads, data, case, kw)
     except Exception as ex:
         acc.viol(sigp + '.loads.exception', case, repr(ex), 'dict', 'decoding the encoded message raised')
         return
@@ -91,12 +133,14 @@ def check_conformance(case, acc, sigp='c02'):
     except iso_ref.RefError as ex:
         raise core.Broken('generator produced a message the reference cannot encode: %s %r' % (ex, case))
     try:
-        data = iso8583.dumps(copy.deepcopy(msg), **kw)
+        data = lib_call(iso8583.dumps, copy.deepcopy(msg), case, kw)
     except Exception as ex:
         if may_refuse(case):
             acc.outcome('over-long numeral text refused')
             return
         acc.viol(sigp + '.dumps.exception', case, repr(ex), 'bytes', 'encoding a well-formed message raised')
+        return
+    if order_independent(case, msg, data, kw, acc, sigp):
         return
     enc_ok = True
     if case.get('pds'):
@@ -138,7 +182,7 @@ def check_conformance(case, acc, sigp='c02'):
     except iso_ref.RefError as ex:
         raise core.Broken('reference cannot decode its own encoding: %s %r' % (ex, case))
     try:
-        out = iso8583.loads(src, **kw)
+        out = lib_call(iso8583.loads, src, case, kw)
     except Exception as ex:
         acc.viol(sigp + '.loads.exception', case, repr(ex), 'dict', 'decoding a layout-conformant message raised')
         return
